@@ -391,6 +391,19 @@ impl C19 {
         if p.leak && !(p.input_labels.is_empty() && p.stmts.is_empty()) {
             ctx.class("leaked_handle");
             ctx.check(built.is_err(), "build/fails-iff-handle-leaked/value/leaked", || json!({"input": input(), "observed": "Ok", "expected": "Err(shared state): a Var clone outlived the builder"}));
+            // the state handed back must still be the term that was built (one hyperedge per applied operator)
+            if let Err(state) = built {
+                let plain = from_lax_raw(&state.borrow());
+                let inputs: Vec<u64> = vec![0; p.input_labels.len()];
+                let (_, applied, _) = direct(p, &inputs);
+                let mut a: Vec<VOp> = plain.e.iter().map(|e| e.l.clone()).filter(|l| *l != VOp::Var).collect();
+                let mut b: Vec<VOp> = applied.iter().map(|(o, _)| o.clone()).collect();
+                a.sort();
+                b.sort();
+                ctx.check(a == b && plain.s.len() == p.input_labels.len() && plain.t.len() == p.outputs.len(), "build/failure-hands-back-the-shared-state/value/leaked", || {
+                    json!({"input": input(), "observed_state": show_lax(&plain), "expected_operators": format!("{:?}", b)})
+                });
+            }
             return;
         }
         let term = match built {
